@@ -97,8 +97,8 @@ func childMain(chunkFile, resFile string) {
 			fmt.Fprintf(os.Stderr, "SLOW %v %s\n", d, strings.Join(c.Script, "; "))
 		}
 		write(resLine{Done: &i, Res: res})
-		if res.Counts["ev:timeout"] > 0 {
-			hung++
+		if res.Counts["ev:timeout"] > 0 || res.Counts["ev:holdtimeout"] > 0 {
+			hung++ // (a worker that gave up waiting for its equal-order peers costs a hold guard)
 		}
 		if hung >= 8 { // every hang costs a full guard: enough evidence, stop
 			write(resLine{Abort: true})
